@@ -614,3 +614,189 @@ func fnRecvOrNil(fn *ssa.Function) types.Type {
 	}
 	return types.Typ[types.Invalid]
 }
+
+// ---------------------------------------------------------------------------
+// R-SOFTBREAK-SPACE (C19, C20): a soft line break separates two words; wherever the renderer asks
+// SoftLineBreak() and the answer is yes, a space is emitted — on every path, not only when some
+// further condition holds (a "no space between CJK characters" exception glues together words that
+// the exporter's line wrapping had separated by that very space: export → import is no longer the
+// identity and the next export differs).
+// ---------------------------------------------------------------------------
+
+func ruleSoftBreakSpace(r *Run) {
+	p := r.P
+	n := 0
+	for _, fn := range p.ModFuncs() {
+		if fn.Pkg == nil || fn.Pkg.Pkg.Path() != pkgMd {
+			continue
+		}
+		loops := naturalLoops(fn)
+		allInstrs(fn, func(in ssa.Instruction) {
+			c, ok := in.(*ssa.Call)
+			if !ok || !strings.HasSuffix(calleeName(c), ".SoftLineBreak") || c.Referrers() == nil {
+				return
+			}
+			var iff *ssa.If
+			for _, u := range *c.Referrers() {
+				if x, ok := u.(*ssa.If); ok {
+					iff = x
+				}
+			}
+			if iff == nil {
+				return
+			}
+			n++
+			yes := iff.Block().Succs[0]
+			// blocks that emit a single space
+			cut := map[*ssa.BasicBlock]bool{}
+			allInstrs(fn, func(in2 ssa.Instruction) {
+				c2, ok := in2.(*ssa.Call)
+				if !ok {
+					return
+				}
+				for _, a := range c2.Call.Args {
+					if s, ok := constString(a); ok && s == " " {
+						cut[c2.Block()] = true
+					}
+				}
+			})
+			var l *natLoop
+			for _, cand := range loops {
+				if cand.Body[iff.Block()] && (l == nil || len(cand.Body) < len(l.Body)) {
+					l = cand
+				}
+			}
+			ok2 := len(cut) > 0
+			if ok2 && !cut[yes] {
+				for b := range reachableBlocks(yes, cut) {
+					if len(b.Instrs) > 0 {
+						if _, isRet := b.Instrs[len(b.Instrs)-1].(*ssa.Return); isRet {
+							ok2 = false
+						}
+					}
+					if l != nil && (b == l.Header || !l.Body[b]) {
+						ok2 = false
+					}
+				}
+			}
+			r.Check("softbreak-space", fmt.Sprintf("%s#%d", shortName(fn), n), c.Pos(), ok2,
+				fmt.Sprintf("%s: when SoftLineBreak() is true a space must be emitted on every path (the two lines are separate words); a further condition on the way to it drops the space for some inputs, so text that the exporter wrapped at that space comes back glued together", shortName(fn)))
+		})
+	}
+	r.Min("softbreak_tests", n, 1) // the two inline renderers may share one helper
+}
+
+// ---------------------------------------------------------------------------
+// R-CHILD-ORDER (C19): "the document contains the same visible text in the same block order".  A
+// renderer that walks the children of a node handles them in ONE in-order pass.  Setting some kinds
+// of children aside in a slice while processing the others in the loop, and rendering the deferred
+// ones afterwards, moves content: a paragraph that follows a nested list inside a list item ends up
+// in front of the nested items.
+// ---------------------------------------------------------------------------
+
+func ruleChildOrder(r *Run) {
+	p := r.P
+	n := 0
+	for _, fn := range p.ModFuncs() {
+		if fn.Pkg == nil || fn.Pkg.Pkg.Path() != pkgMd || fn.Parent() != nil {
+			continue
+		}
+		loops := naturalLoops(fn)
+		for _, l := range loops {
+			// a child-iteration loop: NextSibling() inside the loop
+			isChildLoop := false
+			for b := range l.Body {
+				for _, in := range b.Instrs {
+					if c, ok := in.(ssa.CallInstruction); ok && c.Common().IsInvoke() && c.Common().Method.Name() == "NextSibling" {
+						isChildLoop = true
+					}
+				}
+			}
+			if !isChildLoop {
+				continue
+			}
+			n++
+			// children appended to a local slice inside the loop …
+			var deferred []*ssa.Call
+			processes := false
+			for b := range l.Body {
+				for _, in := range b.Instrs {
+					c, ok := in.(*ssa.Call)
+					if !ok {
+						continue
+					}
+					if bi, ok := c.Call.Value.(*ssa.Builtin); ok && bi.Name() == "append" {
+						if st, ok := c.Type().Underlying().(*types.Slice); ok && strings.Contains(st.Elem().String(), "goldmark") {
+							deferred = append(deferred, c)
+						}
+						continue
+					}
+					if cal := staticCallee(c); cal != nil && p.inModule(cal) {
+						processes = true
+					}
+				}
+			}
+			bad := ""
+			for _, d := range deferred {
+				// … and rendered by a later loop over that slice
+				for _, l2 := range loops {
+					if l2 == l || l2.Body[l.Header] || l.Body[l2.Header] {
+						continue
+					}
+					ri := rangeOf(l2)
+					if ri == nil {
+						continue
+					}
+					if !flowsFromPhi(ri.X, d) {
+						continue
+					}
+					rendersLater := false
+					for b := range l2.Body {
+						for _, in := range b.Instrs {
+							if c, ok := in.(*ssa.Call); ok {
+								if cal := staticCallee(c); cal != nil && p.inModule(cal) {
+									rendersLater = true
+								}
+							}
+						}
+					}
+					if rendersLater && processes {
+						bad = "children collected at " + p.pos(d.Pos()) + " are rendered by a second loop after the others have been processed"
+					}
+				}
+			}
+			r.Check("child-order", fmt.Sprintf("%s#%d", shortName(fn), n), l.Header.Instrs[0].Pos(), bad == "",
+				fmt.Sprintf("%s walks the children of a node: they must be handled in one in-order pass: %s", shortName(fn), map[bool]string{true: "no deferral", false: bad + " — whatever follows a deferred child in the source is moved in front of it"}[bad == ""]))
+		}
+	}
+	r.Min("child_iteration_loops", n, 5)
+}
+
+// flowsFromPhi: v is src or reaches it through phis / appends (an accumulated slice).
+func flowsFromPhi(v, src ssa.Value) bool {
+	seen := map[ssa.Value]bool{}
+	var walk func(x ssa.Value) bool
+	walk = func(x ssa.Value) bool {
+		if x == nil || seen[x] {
+			return false
+		}
+		seen[x] = true
+		if x == src {
+			return true
+		}
+		switch y := x.(type) {
+		case *ssa.Phi:
+			for _, e := range y.Edges {
+				if walk(e) {
+					return true
+				}
+			}
+		case *ssa.Call:
+			if bi, ok := y.Call.Value.(*ssa.Builtin); ok && bi.Name() == "append" {
+				return walk(y.Call.Args[0])
+			}
+		}
+		return false
+	}
+	return walk(v)
+}
